@@ -98,6 +98,17 @@ def go_build(cmds):
         _built[('go', c)] = True
 
 
+def go_build_race(cmd):
+    """Build a harness command with the Go race detector (bin/<cmd>-race)."""
+    if _built.get(('go-race', cmd)):
+        return
+    go_build([])
+    p = run(['go', 'build', '-race', '-o', os.path.join(HBIN, cmd + '-race'), f'./cmd/{cmd}'], cwd=HARNESS)
+    if p.returncode != 0:
+        raise TieBroken('harness-build', f'race build of {cmd} failed:\n' + (p.stderr or p.stdout)[-2000:])
+    _built[('go-race', cmd)] = True
+
+
 def lake_build(targets):
     key = ('lake', tuple(targets))
     if _built.get(key):
@@ -313,6 +324,7 @@ def corr(ctx, name, go_cmd, go_args, driver_args, timeout=3600, only=None, const
     """Run a harness generator and the Lean driver on the same lines; compare.
     Returns (n_cases, mismatches [(index, line, code, model)], stats)."""
     g = run([os.path.join(HBIN, go_cmd)] + [str(a) for a in go_args], timeout=timeout)
+    ctx.last_stderr = g.stderr
     if g.returncode not in ok_exit:
         raise TieBroken(f'T-corr {name}', f'harness {go_cmd} exited {g.returncode}: {(g.stderr or g.stdout)[-1500:]}')
     lines, expect, const_mism = [], [], []
